@@ -42,7 +42,8 @@ def _flat(value, out):
 def _names(value):
     if isinstance(value, (list, tuple)):
         return [_names(v) for v in value]
-    return getattr(value, "result_name", repr(type(value).__name__))
+    key = getattr(value, "sim_key", None)
+    return key if key is not None else getattr(value, "result_name", repr(type(value).__name__))
 
 
 _ORDER = ("A", "B", "L", "N", "NN")
@@ -54,7 +55,9 @@ class _ProbeBase(Command):
 
     def execute(self, **kwargs):
         sim = SIM
-        me = self.result_name
+        me = getattr(self, "sim_key", None)    # stand-alone objects may share a result name with a program command
+        if me is None:
+            me = self.result_name
         refs = []
         shape = {}
         for pname in _ORDER:
@@ -150,4 +153,11 @@ class ProbeOpNone(_ProbeBase):
             params.ListParameter(params.ListParameter(params.ResultParameter())), required=False
         ),
     }
+    output = None
+
+
+class ProbeOpNoOut(_ProbeBase):
+    """Typed references, but no declared output kind of its own (a consumer's kind check is then skipped)."""
+
+    inputs = dict(ProbeOp.inputs)
     output = None
